@@ -107,3 +107,13 @@ pub fn decode_json(s: &str) -> Option<Value> {
 }
 
 pub const ALGS: [&str; 3] = ["sha-256", "sha-384", "sha-512"];
+
+/// hex of the raw digest bytes (before base64url), for the base64url model of the Coq development
+pub fn hash_raw_hex(alg: &str, data: &str) -> String {
+    let bytes: Vec<u8> = match alg {
+        "sha-384" => Sha384::digest(data.as_bytes()).to_vec(),
+        "sha-512" => Sha512::digest(data.as_bytes()).to_vec(),
+        _ => Sha256::digest(data.as_bytes()).to_vec(),
+    };
+    bytes.iter().map(|b| format!("{:02x}", b)).collect()
+}
